@@ -1,0 +1,114 @@
+//go:build verif
+
+// Copyright Istio Authors
+//
+// Licensed under the Apache License, Version 2.0 (the "License");
+// you may not use this file except in compliance with the License.
+// You may obtain a copy of the License at
+//
+//     http://www.apache.org/licenses/LICENSE-2.0
+//
+// Unless required by applicable law or agreed to in writing, software
+// distributed under the License is distributed on an "AS IS" BASIS,
+// WITHOUT WARRANTIES OR CONDITIONS OF ANY KIND, either express or implied.
+// See the License for the specific language governing permissions and
+// limitations under the License.
+
+package model
+
+import (
+	"istio.io/istio/pkg/config/host"
+	"istio.io/istio/pkg/verif"
+)
+
+// ---------------------------------------------------------------------------------------------
+// C07: services imported into a Sidecar scope as VirtualService destinations are visible
+// ---------------------------------------------------------------------------------------------
+
+// Visibility of a service from a namespace is taken as a fixed relation between service objects and
+// namespaces while one scope is being computed (IsServiceVisible reads only the push context's export
+// defaults and the service's namespace / exportTo / visibility attributes, none of which is written here).
+//
+//verif:pure (*PushContext).IsServiceVisible virtualServiceDestinationsFilteredBySourceNamespace (*istio.io/istio/pkg/config.Meta).Key
+
+// The name and namespace of a service object do not change while it is indexed (identity of the object).
+//
+//verif:pure (*Service).NamespacedName
+
+// from the statement: "A proxy never receives a cluster, endpoint set, route or listener for a service
+// that is not exported to its namespace ... or that its Sidecar egress scope does not import (through its
+// host list, or as the destination of a VirtualService it imports)". A destination of an imported
+// VirtualService is added to the scope in two places: the service of that host name in the proxy's own
+// namespace, or else the one in the namespace picked by pickFirst/BestVisibleNamespace. Both must be
+// visible from the proxy's namespace (what is appended is that service or a port-narrowed copy of it).
+//
+//verif:call-assert (*SidecarScope).collectImportedServices appendSidecarServices 1
+func caSameNamespaceDestinationIsVisible(ps *PushContext, configNamespace string, s *Service) bool {
+	return ps.IsServiceVisible(s, configNamespace)
+}
+
+//verif:call-assert (*SidecarScope).collectImportedServices appendSidecarServices 2
+func caPickedNamespaceDestinationIsVisible(ps *PushContext, configNamespace string, byNamespace map[string]*Service, ns string) bool {
+	return ps.IsServiceVisible(byNamespace[ns], configNamespace)
+}
+
+//verif:contract (*SidecarScope).collectImportedServices
+//verif:prop C07
+//verif:nosafety
+func ctCollectImportedServices(sc *SidecarScope, ps *PushContext, configNamespace string) {
+	verif.Requires("scope-and-context-present", sc != nil && ps != nil)
+	// representation invariant of the service index (initServiceRegistry files every service under its own
+	// namespace)
+	verif.Requires("service-index-by-own-namespace", verif.Forall(func(h host.Name) bool {
+		return indexedByOwnNamespace(ps.ServiceIndex.HostnameAndNamespace[h])
+	}))
+	sc.collectImportedServices(ps, configNamespace)
+}
+
+// The namespace pickers return a namespace of the index whose service is visible, or "".
+// The index maps each namespace to a service of that namespace.
+func indexedByOwnNamespace(byNamespace map[string]*Service) bool {
+	return verif.Forall(func(ns string) bool {
+		s, ok := byNamespace[ns]
+		return !ok || (s != nil && s.NamespacedName().Namespace == ns)
+	})
+}
+
+//verif:contract pickFirstVisibleNamespace
+//verif:prop C07
+func ctPickFirstVisibleNamespace(ps *PushContext, byNamespace map[string]*Service, configNamespace string) {
+	verif.Requires("context-present", ps != nil)
+	ns := pickFirstVisibleNamespace(ps, byNamespace, configNamespace)
+	_, in := byNamespace[ns]
+	verif.Ensures("picked-namespace-holds-a-visible-service", ns == "" || (in && ps.IsServiceVisible(byNamespace[ns], configNamespace)))
+}
+
+//verif:invariant pickFirstVisibleNamespace 1
+func invPickFirstVisibleNamespace(ps *PushContext, byNamespace map[string]*Service, configNamespace string, nss []string) bool {
+	return verif.Fresh(nss) && verif.Forall(func(i int) bool {
+		if !(0 <= i && i < len(nss)) {
+			return true
+		}
+		_, in := byNamespace[nss[i]]
+		return in && ps.IsServiceVisible(byNamespace[nss[i]], configNamespace)
+	})
+}
+
+//verif:contract pickBestVisibleNamespace
+//verif:prop C07
+func ctPickBestVisibleNamespace(ps *PushContext, byNamespace map[string]*Service, configNamespace string) {
+	verif.Requires("context-present", ps != nil)
+	verif.Requires("index-by-own-namespace", indexedByOwnNamespace(byNamespace))
+	ns := pickBestVisibleNamespace(ps, byNamespace, configNamespace)
+	_, in := byNamespace[ns]
+	verif.Ensures("picked-namespace-holds-a-visible-service", ns == "" || (in && ps.IsServiceVisible(byNamespace[ns], configNamespace)))
+}
+
+//verif:invariant pickBestVisibleNamespace 1
+func invPickBestVisibleNamespace(ps *PushContext, byNamespace map[string]*Service, configNamespace string, currentBestService *Service) bool {
+	return currentBestService == nil || (func() bool {
+		ns := currentBestService.NamespacedName().Namespace
+		s, in := byNamespace[ns]
+		return in && s == currentBestService && ps.IsServiceVisible(currentBestService, configNamespace)
+	})()
+}
